@@ -160,7 +160,7 @@ def recipes(spec, tier, rng):
     label, nq, npar, maker = spec
     n = nq + 3
     out = []
-    perms = [list(range(nq)), list(range(nq))[::-1]] if nq > 1 else [[0]]
+    perms = [list(range(nq))[::-1], list(range(nq))] if nq > 1 else [[0]]   # non-ascending targets first
     place = [[(1, 3, 0, 4, 2, 5)[i] for i in p] for p in perms]  # non-ascending, non-adjacent
     probe = maker(list(range(nq)), [0.1] * npar if label != "MS" else [0.1, 0.1, 0.1])
     has_ctrl = bool(probe.control_qubits)
@@ -173,7 +173,9 @@ def recipes(spec, tier, rng):
                 out.append(("dagger", label, qs, (free[1], free[0]), None, update))
                 for k in (1, 2, 3):
                     out.append(("controlled_by", label, qs, tuple(free[:k][::-1]), None, update))
-            qmap = {q: p for q, p in zip(range(n), rng.sample(range(n), n))}
+            keys = list(range(n))
+            rng.shuffle(keys)          # dict iteration order must not matter
+            qmap = {q: p for q, p in zip(keys, rng.sample(range(n), n))}
             out.append(("on_qubits", label, qs, (), qmap, update))
             if not has_ctrl:
                 out.append(("on_qubits", label, qs, (free[2], free[0]), qmap, update))
